@@ -15,6 +15,14 @@ package rpc
 // reached because the handler waits for it; a cancel comes from the client once the handler was
 // entered, under the 10 min time-out) and only then return / fail / panic.  The parent sends the
 // TLC-generated scenarios with a plain grpc client and compares gRPC codes with the specification.
+//
+// WHEN the answer arrives is an observation too: for scenarios the specification answers "at the
+// deadline" (late handlers) the handler may also ignore its context and end only 1.5 s later
+// ("sleep") or not at all ("never"); the client must hold DeadlineExceeded (time-out 150 ms), and
+// the observer must have seen the time-out interceptor return Canceled after the client's cancel,
+// within 1 s - at least 500 ms away from the deadline on one side and from the handler's end on the
+// other.  A late answer counts only if it reproduces 3 times with a prompt handler entry (a stalled
+// machine is an infrastructure error, not a violation).
 
 import (
 	"bufio"
@@ -48,6 +56,9 @@ const (
 	c02RpcLongMs  = 600000
 	c02RpcShortMs = 150
 	c02RpcBarrier = 30 * time.Second
+	c02RpcSleep   = 1500 * time.Millisecond // a handler that ignores its context ends this long after entry
+	c02RpcPrompt  = 1 * time.Second         // "at the deadline": answered within this
+	c02RpcStall   = 400 * time.Millisecond  // handler entry slower than this: the machine is stalled, timing says nothing
 )
 
 // ---------------------------------------------------------------- child: the servers
@@ -82,7 +93,14 @@ func (d *c02Dep) Deposit(ctx context.Context, _ *mock.DepositRequest) (*mock.Dep
 	id, beh, late := c02MD(ctx, "x-verif-id"), c02MD(ctx, "x-verif-beh"), c02MD(ctx, "x-verif-late") == "1"
 	d.out.emit(kit.M{"ev": "entered", "id": id})
 	if late {
-		<-ctx.Done()
+		switch c02MD(ctx, "x-verif-wait") {
+		case "sleep": // ignores its context
+			time.Sleep(c02RpcSleep)
+		case "never": // ends only when the server process is torn down
+			select {}
+		default:
+			<-ctx.Done()
+		}
 	}
 	switch beh {
 	case "err":
@@ -211,6 +229,7 @@ type c02Child struct {
 	conns  map[string]*grpc.ClientConn
 	mu     sync.Mutex
 	wait   map[string]chan string // "entered:<id>" / "obs:<id>" -> value
+	at     sync.Map               // same keys -> time the event was received
 	exited chan struct{}
 }
 
@@ -265,8 +284,10 @@ func c02Spawn() (*c02Child, error) {
 			case "fatal":
 				fatal <- kit.Str(m["msg"])
 			case "entered":
+				c.at.Store("entered:"+kit.Str(m["id"]), time.Now())
 				c.ch("entered:" + kit.Str(m["id"])) <- "1"
 			case "obs":
+				c.at.Store("obs:"+kit.Str(m["id"]), time.Now())
 				c.ch("obs:" + kit.Str(m["id"])) <- kit.Str(m["code"])
 			}
 		}
@@ -316,44 +337,65 @@ func (c *c02Child) stop() {
 
 var c02RpcSeq atomic.Int64
 
-// call runs one scenario against one server; returns the client-visible code and, on observer
-// servers, the code returned by the time-out interceptor ("" otherwise).
-func (c *c02Child) call(server string, beh string, late bool, cause string) (client, srv string, infra error) {
+type c02RpcRes struct {
+	client   string        // gRPC code the client saw
+	srv      string        // code returned by the time-out interceptor (observer servers), "" otherwise
+	elapsed  time.Duration // call start -> client has its answer
+	obsDelay time.Duration // client cancel -> the time-out interceptor returned (observer servers, cancel scenarios); -1 unknown
+	enterLat time.Duration // call start -> handler entered; -1 unknown
+}
+
+// call runs one scenario against one server. bound: how long the client waits at most.
+func (c *c02Child) call(server string, beh string, late bool, cause, wait string, bound time.Duration) (r c02RpcRes) {
 	id := strconv.FormatInt(c02RpcSeq.Add(1), 10)
 	l := "0"
 	if late {
 		l = "1"
 	}
-	ctx, cancel := context.WithTimeout(context.Background(), c02RpcBarrier)
+	r.obsDelay, r.enterLat = -1, -1
+	ctx, cancel := context.WithTimeout(context.Background(), bound)
 	defer cancel()
-	ctx = metadata.AppendToOutgoingContext(ctx, "x-verif-id", id, "x-verif-beh", beh, "x-verif-late", l)
+	ctx = metadata.AppendToOutgoingContext(ctx, "x-verif-id", id, "x-verif-beh", beh, "x-verif-late", l, "x-verif-wait", wait)
+	var cancelledAt atomic.Int64
 	if late && cause == "cancel" {
 		go func() {
 			select {
 			case <-c.ch("entered:" + id):
+				cancelledAt.Store(time.Now().UnixNano())
 				cancel() // the client goes away while the handler is inside
-			case <-time.After(c02RpcBarrier):
+			case <-time.After(bound):
 			case <-c.exited:
 			}
 		}()
 	}
+	t0 := time.Now()
 	_, err := mock.NewDepositServiceClient(c.conns[server]).Deposit(ctx, &mock.DepositRequest{Amount: 1})
-	client = status.Code(err).String()
+	r.elapsed = time.Since(t0)
+	r.client = status.Code(err).String()
 	if ctx.Err() == context.DeadlineExceeded {
 		// the specification's chain cannot block past its own deadline (150 ms, or the client's cancel):
-		// no answer within 30 s is a hung request, reported as such
-		return "(no answer within " + c02RpcBarrier.String() + ")", "", nil
+		// no answer within the bound is a hung request, reported as such
+		r.client = "(no answer within " + bound.String() + ")"
 	}
 	if server == "obs-long" || server == "obs-short" {
 		select {
-		case srv = <-c.ch("obs:" + id):
+		case r.srv = <-c.ch("obs:" + id):
+			if ca := cancelledAt.Load(); ca != 0 {
+				if t, ok := c.at.Load("obs:" + id); ok {
+					r.obsDelay = t.(time.Time).Sub(time.Unix(0, ca))
+				}
+			}
 		case <-c.exited:
-			srv = "server-exited"
-		case <-time.After(c02RpcBarrier):
-			srv = "(time-out interceptor did not return within " + c02RpcBarrier.String() + ")"
+			r.srv = "server-exited"
+		case <-time.After(bound):
+			r.srv = "(time-out interceptor did not return within " + bound.String() + ")"
+			r.obsDelay = bound
 		}
 	}
-	return client, srv, nil
+	if t, ok := c.at.Load("entered:" + id); ok {
+		r.enterLat = t.(time.Time).Sub(t0)
+	}
+	return r
 }
 
 func c02In(set []any, s string) bool {
@@ -392,40 +434,79 @@ func TestVerifC02Rpc(t *testing.T) {
 			continue
 		}
 		m := c.Steps[0]
-		beh, late, cause := kit.Str(m["beh"]), kit.Bool(m["late"]), kit.Str(m["cause"])
+		beh, late, cause, wait := kit.Str(m["beh"]), kit.Bool(m["late"]), kit.Str(m["cause"]), kit.Str(m["wait"])
 		exp := kit.List(m["exp"])
+		atDeadline := kit.Str(m["at"]) == "deadline" // the answer must arrive at the deadline/cancel, not at the handler's end
 		v := kit.Verdict{Case: c.Index, OK: true}
 		scen := beh
 		if late {
 			scen += "-late-" + cause
+			if wait != "ctx" {
+				scen += "-" + wait
+			}
 		}
 		kind := "long"
 		if late && cause == "deadline" {
 			kind = "short"
 		}
+		rounds, bound := repeat, c02RpcBarrier
+		if wait == "sleep" || wait == "never" {
+			bound = 5 * time.Second // such a handler is not waited for; "late" is decided at 1 s
+			if rounds > 3 {
+				rounds = 3
+			}
+		}
 	loop:
-		for rnd := 0; rnd < repeat; rnd++ {
+		for rnd := 0; rnd < rounds; rnd++ {
 			for _, server := range []string{"pub-" + kind, "obs-" + kind} {
-				client, srv, infra := child.call(server, beh, late, cause)
-				if infra != nil && child.alive() {
-					v = kit.Verdict{Case: c.Index, Infra: true, Msg: server + ": " + infra.Error()}
-					break loop
+				var r c02RpcRes
+				lateN, stalled := 0, 0
+				const attempts = 3
+				for a := 0; a < attempts; a++ {
+					r = child.call(server, beh, late, cause, wait, bound)
+					v.Steps++
+					if !child.alive() || !atDeadline {
+						break
+					}
+					// timing: the client's answer (deadline) / the interceptor's return (cancel, observer) is prompt
+					tooLate := (cause == "deadline" && r.elapsed >= c02RpcPrompt) || (cause == "cancel" && r.obsDelay >= c02RpcPrompt)
+					if !tooLate {
+						lateN = 0
+						break
+					}
+					lateN++
+					if r.enterLat < 0 || r.enterLat > c02RpcStall {
+						stalled++
+					}
 				}
-				v.Steps++
 				if !child.alive() {
 					v.OK, v.Key = false, "C02:rpc:server-down:"+scen
-					v.Msg = fmt.Sprintf("server process died while serving scenario %s on %s (client saw %s); specification: the server survives and answers %v", scen, server, client, exp)
+					v.Msg = fmt.Sprintf("server process died while serving scenario %s on %s (client saw %s); specification: the server survives and answers %v", scen, server, r.client, exp)
 					break loop
 				}
-				if !c02In(exp, client) {
+				if lateN == attempts {
+					if stalled == attempts {
+						v = kit.Verdict{Case: c.Index, Infra: true, Msg: fmt.Sprintf("%s %s: machine too slow for a conclusive timing run (handler entry took %v)", server, scen, r.enterLat)}
+						break loop
+					}
+					v.OK, v.Key = false, "C02:rpc:late-deadline:"+scen
+					what := fmt.Sprintf("the client had its answer (%s) only after %v", r.client, r.elapsed.Round(time.Millisecond))
+					if cause == "cancel" {
+						what = fmt.Sprintf("the time-out interceptor returned (%s) only %v after the client's cancel", r.srv, r.obsDelay.Round(time.Millisecond))
+					}
+					v.Msg = fmt.Sprintf("scenario %s on %s (time-out %d ms, handler ends %v after entry or never): %s in each of %d attempts; specification answers at the %s, i.e. within %v",
+						scen, server, map[string]int{"short": c02RpcShortMs, "long": c02RpcLongMs}[kind], c02RpcSleep, what, attempts, cause, c02RpcPrompt)
+					break loop
+				}
+				if !c02In(exp, r.client) {
 					v.OK, v.Key = false, "C02:rpc:client-code:"+scen
-					v.Msg = fmt.Sprintf("scenario %s on %s: client saw gRPC code %s, specification allows %v", scen, server, client, exp)
+					v.Msg = fmt.Sprintf("scenario %s on %s: client saw gRPC code %s, specification allows %v", scen, server, r.client, exp)
 					break loop
 				}
 				// server side: only where the chain's own answer is the time-out interceptor's (late scenarios)
-				if srv != "" && late && !c02In(exp, srv) {
+				if r.srv != "" && late && !c02In(exp, r.srv) {
 					v.OK, v.Key = false, "C02:rpc:server-code:"+scen
-					v.Msg = fmt.Sprintf("scenario %s on %s: the time-out interceptor returned %s, specification allows %v", scen, server, srv, exp)
+					v.Msg = fmt.Sprintf("scenario %s on %s: the time-out interceptor returned %s, specification allows %v", scen, server, r.srv, exp)
 					break loop
 				}
 				rep.Count(server+"."+scen, 1)
@@ -442,12 +523,12 @@ func TestVerifC02Rpc(t *testing.T) {
 	}
 	// nobody took the servers down: a plain call still succeeds on each of them
 	for _, server := range []string{"pub-long", "pub-short", "obs-long", "obs-short"} {
-		client, _, infra := child.call(server, "ok", false, "deadline")
-		if infra != nil || client != "OK" {
-			if !child.alive() || client == "Unavailable" {
-				rep.Put(kit.Verdict{Case: len(cases), Key: "C02:rpc:server-down:final", Msg: fmt.Sprintf("%s no longer serves after the scenarios: %s %v", server, client, infra)})
+		r := child.call(server, "ok", false, "deadline", "none", c02RpcBarrier)
+		if r.client != "OK" {
+			if !child.alive() || r.client == "Unavailable" {
+				rep.Put(kit.Verdict{Case: len(cases), Key: "C02:rpc:server-down:final", Msg: fmt.Sprintf("%s no longer serves after the scenarios: %s", server, r.client)})
 			} else {
-				rep.Put(kit.Verdict{Case: len(cases), Infra: true, Msg: fmt.Sprintf("final call on %s: %s %v", server, client, infra)})
+				rep.Put(kit.Verdict{Case: len(cases), Infra: true, Msg: fmt.Sprintf("final call on %s: %s", server, r.client)})
 			}
 			return
 		}
